@@ -73,15 +73,14 @@ def _gather_role(t: T):
     return roles
 
 
-def _roles(repo, col, cl, name):
-    R = "R-C09-roles"
+def _roles(repo, col, cl, name, R="R-C09-roles", RS="R-C09-space"):
     fi = repo.method("Network", name)
     ex = idx.expander(repo, fi)
     # grouping: sort=False
     gb = [c for c in ex.calls if isinstance(c.func, ast.Attribute) and c.func.attr == "groupby"]
     ok = bool(gb) and all(any(k.arg == "sort" and isinstance(k.value, ast.Constant) and k.value.value is False for k in c.keywords)
                           and c.args and isinstance(c.args[0], ast.Constant) and c.args[0].value == "type" for c in gb)
-    col.check(ok, "R-C09-space", fi, f"{name}: edges grouped by type in table order", "groupby('type', sort=False)",
+    col.check(ok, RS, fi, f"{name}: edges grouped by type in table order", "groupby('type', sort=False)",
               "the grouping by synapse type may reorder types relative to the per-type parameter arrays", node=gb[0] if gb else fi.node)
     asserts = [n for n in ast.walk(fi.node) if isinstance(n, ast.Assert)]
     ok = False
@@ -97,7 +96,7 @@ def _roles(repo, col, cl, name):
     n_sp = 0
     for kind, arr, ix, node in idx.gather_sites(ex):
         if arr.op == "sub" and arr.args[1].op == "const" and arr.args[1].name in ("v", "radius", "length") and _col_of(ix):
-            n_sp += idx.check_site(repo, col, cl, "R-C09-space", fi, kind, arr, ix, node, kcs=("node",))
+            n_sp += idx.check_site(repo, col, cl, RS, fi, kind, arr, ix, node, kcs=("node",))
     if n_sp == 0:
         raise AnalysisError(f"{name}: no gather of node arrays with pre/post indices found")
     if name == "_step_synapse_state":
